@@ -10,8 +10,13 @@ TOL = 1e-9
 
 
 def near(a, b, scale=1.0):
+    # "nan" tokens and float NaNs are one value here: an identity between two NaNs holds, one NaN side does not
+    a = float("nan") if a == "nan" else a
+    b = float("nan") if b == "nan" else b
     if isinstance(a, str) or isinstance(b, str):
         return a == b
+    if a != a or b != b:
+        return a != a and b != b
     return abs(a - b) <= TOL * max(1.0, abs(a), abs(b), abs(scale))
 
 
@@ -86,7 +91,7 @@ def c01_balance_sheet(case, step_state, mults, check_weights=True):
         return fails
     for n in walk(root):
         if n.kind == "G":
-            tot = n.s["capital"] + sum(fnum(k.s["value"]) for k in n.kids)
+            tot = fnum(n.s["capital"]) + sum(fnum(k.s["value"]) for k in n.kids)
             if not near(n.s["value"], tot, tot):
                 fails.append("%s: value %r != cash + children %r" % (n.path, n.s["value"], tot))
             nt = sum(abs(fnum(k.s["notl"])) for k in n.kids)
@@ -97,6 +102,8 @@ def c01_balance_sheet(case, step_state, mults, check_weights=True):
             if check_weights:
                 for k in n.kids:
                     num = fnum(k.s["notl"] if fi else k.s["value"])
+                    if isinstance(base, str) or base != base:
+                        continue        # a NaN parent value: the quotient is not a number, nothing to compare
                     if abs(base) > 1e-12:
                         want = num / base
                     else:
